@@ -688,3 +688,27 @@ def RemOutOK (x o : String) (ti : TypeInfo) (p : Program) : Bool :=
   && typesAvoid x ti
 
 end Martian.Refactor
+
+namespace Martian.Refactor
+
+/-! ### the cascade of input removals: side conditions that do not mention the removed parameters -/
+
+def structOKc (c : Callable) : Bool :=
+  (c.isPipe || c.calls.isEmpty)
+  && decide (callIds c).Nodup
+  && c.calls.all (fun k => noStar k.binds && decide (k.binds.map (·.name)).Nodup)
+  && noStar c.ret
+
+/-- well-formedness of a program as the compiler guarantees it (decidable): callable
+names distinct and non-empty, stages without body, distinct call ids, distinct
+binding names, no wildcard bindings (KF1) -/
+def StructOK (p : Program) : Bool :=
+  decide (p.callables.map (·.name)).Nodup
+  && p.callables.all (fun c => c.name != "" && structOKc c)
+  && (match p.top with | some t => structOKc (topPipe t) | none => true)
+
+/-- nothing inside callable `x` refers to `self.q` -/
+def seedOK (x q : String) (p : Program) : Bool :=
+  x != "" && p.callables.all (fun c => c.name != x || (graphRefs c).all (fun r => !selfRefTo q r))
+
+end Martian.Refactor
